@@ -53,7 +53,7 @@ Proof.
   intros p. unfold impl_resolve, ref_resolve, walk_program.
   destruct (has_items p) eqn:Eh.
   - set (n := len_block p).
-    set (st0 := create_scope 0 n KNormal (mkState [] [] [])).
+    set (st0 := create_scope 0 n KNormal (mkState [] [] [] [])).
     set (stB := create_scope 0 n KNormal st0).
     assert (HI0 : Inv st0 0 []).
     { constructor; cbn [st0 create_scope st_z st_decls st_refs].
